@@ -1,8 +1,9 @@
 (* C13 — predicates and aliases are transparent abstractions. *)
 From CPF Require Import Engine.Query Engine.QueryFacts.
 
-(* a predicate call means its body with the formal parameters bound to the argument entities
-   (seval), and the implementation's expansion by substitution computes exactly that: this is
+(* a predicate call means its body with the formal parameters bound to the argument entities,
+   or to the argument values when the arguments are literals (seval; [env] is the list of bound
+   formals, [R] relates it to the substitution), and the implementation's expansion by substitution computes exactly that: this is
    "replacing a call by its body with the arguments substituted does not change the result",
    for any identifiers (the substitution is on the AST, identifiers that contain one another
    cannot interfere) *)
